@@ -194,6 +194,13 @@ def e2e_stage(res, tier, seed, table):
     for ci in range(ncrates):
         locs = rng.sample([l for l in LOCALES if "-" not in l], 6 if tier == "quick" else 10) + ["pt-PT", "fr-CA"]
         p, meta = gen_project(rng, locs, 3 if tier == "quick" else 5, [])
+        # keys written by the default locale only, with all six forms: every other locale renders them with *its own* rules
+        # ("for every locale and count the form rendered is the one CLDR assigns to that count for that locale")
+        for rule in ("cardinal", "ordinal"):
+            key = "inh_" + rule[:3]
+            p["data"][(None, locs[0])].append([key, {"k": "plural", "rule": rule, "forms": {f: form_segs(f) for f in FORMS}}])
+            for l in locs:
+                meta[(key, l)] = (rule, list(FORMS[:-1]))
         c = e2e.ProbeCrate("c05_%d" % ci, p)
         for (key, loc), (rule, forms) in meta.items():
             oid = c.next_id
